@@ -25,6 +25,20 @@ CURRENT = {"S": None, "matrix_calls": None}
 _MODEL_CLS = None
 
 
+class InjectedFault(Exception):
+    """Fault injected by the abstract megacomplex (C10 / C15)."""
+
+
+def _maybe_fail():
+    n = CURRENT.get("fail_after_matrix_calls")
+    if n is not None:
+        n -= 1
+        CURRENT["fail_after_matrix_calls"] = n
+        if n <= 0:
+            CURRENT["fail_after_matrix_calls"] = None
+            raise InjectedFault("injected fault in calculate_matrix")
+
+
 def model_class():
     """Real Model class over the abstract megacomplex (created once per process)."""
     global _MODEL_CLS
@@ -46,6 +60,7 @@ def model_class():
 
             def calculate_matrix(self, dataset_model, global_axis, model_axis, **kwargs):
                 S = CURRENT["S"]
+                _maybe_fail()
                 labels = list(self.clp_labels)
                 ng, nm = len(global_axis), len(model_axis)
                 if CURRENT["matrix_calls"] is not None:
